@@ -41,8 +41,10 @@ def col_case(fs, rg, col, mode, ops_txt, tag, verify=1):
 
 def bat_case(fs, mode, bs, proj, pcols, tag, verify=1):
     line = f"bat {mode} {verify} {fs.impl_text()} {bs} {proj}"
+    if bs == "d":
+        bs = 65536          # carquet_batch_reader_create(reader, NULL): carquet_batch_reader_config_init's batch size
     return Case(kind="bat", fs=fs, mode=mode, bs=bs, proj=proj, pcols=pcols, tag=tag, line=line,
-                mline=line if fs._impl is None else f"bat {mode} {verify} {fs.text()} {bs} {proj}")
+                mline=line if fs._impl is None else line.replace(fs.impl_text(), fs.text()))
 
 
 def one_col_file(typ, nullable, mask, sizes, codec=0):
@@ -261,8 +263,63 @@ def gen_name_cases(tier, rng):
     return cases
 
 
+def raw_col_case(f, rg, col, mode, ops_txt, tag, verify=1):
+    return Case(kind="col", fs=f, rg=rg, col=col, mode=mode, ops=ops_txt, tag=tag, mline=None,
+                line=f"col {mode} {verify} {f.impl_text()} {rg} {col} {ops_txt}")
+
+
+def gen_nested_cases(tier, rng):
+    """column-reader histories on nested columns (tools/pq.py files: REQUIRED leaves in an OPTIONAL group, in a REPEATED
+    group, 3-level LIST): definition AND repetition levels are delivered by position like everything else
+    (carquet_read_next_page copies rep levels at page_values_read, carquet_read_data_page_v1 decodes them).  Judged by
+    the cursor arithmetic over the entries of the one-shot read; not replayed by the model (no repetition levels there)."""
+    cases = []
+    thorough = tier == "thorough"
+    mi = 0
+    for f in rc.nested_files(rng, thorough):
+        for c in range(len(f.names)):
+            n = len(f.truth[0][c][0])
+            cases.append(raw_col_case(f, 0, c, "f", f"r{n + 1}", "ref"))
+            hs = rc.histories(min(n, 5), min(n, 5) + 1)
+            for h in rng.sample(hs, min(len(hs), 60 if thorough else 14)):
+                h = tuple(h) + ((("r", n + 1),) if n > 5 else ())
+                hq = tuple(("q", k) if kind == "r" and rng.random() < 0.2 else (kind, k) for kind, k in h)
+                cases.append(raw_col_case(f, 0, c, "fmb"[mi % 3], rc.ops_text(hq), "nested", verify=mi % 2))
+                mi += 1
+    return cases
+
+
+def gen_api_cases(tier, rng):
+    """API variants and states of the anchored entry points that the other families never reach (coverage audit):
+    carquet_batch_reader_create(reader, NULL), num_threads = 0, a projection by index that names a column the file does
+    not have (accepted at create, the first next must fail with COLUMN_NOT_FOUND), carquet_reader_get_column with a row
+    group / column outside the file, reader options = NULL"""
+    cases = []
+    fs = FileSpec(0, [Col("a", "i32", False), Col("b", "ba", True), Col("c", "f64", False)],
+                  [[rc.make_chunk("i32", [False] * 5, [2, 3]), rc.make_chunk("ba", [False, True, False, True, False], [5]),
+                    rc.make_chunk("f64", [False] * 5, [1, 4])],
+                   [rc.make_chunk("i32", [False] * 2, [2], base=5), rc.make_chunk("ba", [True, False], [1, 1], base=5),
+                    rc.make_chunk("f64", [False] * 2, [2], base=5)]])
+    nc = len(fs.cols)
+    for g in range(2):
+        for c in range(nc):
+            cases.append(col_case(fs, g, c, "f", "r9", "ref"))
+    for mode in "fmb":
+        for opts in ("1", "1,t0", "0,t1", "d"):
+            cases.append(bat_case(fs, mode, "d", "all", list(range(nc)), "api", verify=opts))
+            cases.append(bat_case(fs, mode, 2, "i:2,0", [2, 0], "api", verify=opts))
+            cases.append(col_case(fs, 0, 1, mode, "r2,m,h,s1,r9,m,h", "api", verify=opts))
+        for proj, pc in ((f"i:0,{nc}", [0, nc]), (f"i:{nc + 3}", [nc + 3]), (f"i:1,{nc},0", [1, nc, 0])):
+            cases.append(bat_case(fs, mode, 3, proj, pc, "api"))
+        for g, c in ((2, 0), (0, nc), (5, nc + 1)):
+            k = col_case(fs, g, c, mode, "r1", "api")
+            k.mline = None
+            cases.append(k)
+    return cases
+
+
 def gen_bat_cases(tier, rng):
-    cases = gen_name_cases(tier, rng)
+    cases = gen_name_cases(tier, rng) + gen_api_cases(tier, rng) + gen_nested_cases(tier, rng)
     for fs in layout_files(tier, rng):
         nc = len(fs.cols)
         rows_max = max(sum(len(p) for p in rg[0]) for rg in fs.rgs)
@@ -305,6 +362,36 @@ def corpus_cases(pid="C02"):
     return cases
 
 
+def special_pq_specs(rng):
+    """(FileSpec, pq_bytes keywords): INT96 columns, dictionary page not announced in the chunk metadata, chunks mixing
+    PLAIN and dictionary pages"""
+    special = []
+    for typ, nullable in (("i96", False), ("i96", True)):
+        n, sizes = 5, [2, 3]
+        mask = [False, True, False, False, True] if nullable else [False] * n
+        for enc in ("PLAIN", "RLE_DICTIONARY"):
+            fs = FileSpec(0, [Col("a", typ, nullable)], [[rc.make_chunk(typ, mask, sizes)]], dict_encoded=(enc != "PLAIN"))
+            special.append((fs, dict(encoding=enc)))
+    for typ, nullable, codec in (("i64", False, 0), ("ba", True, 1), ("i32", True, 0)):
+        n, sizes = 6, [1, 3, 2]
+        mask = rc.safe_nullmask(n, rng, "alt") if nullable else [False] * n
+        fs = FileSpec(codec, [Col("a", typ, nullable)], [[rc.make_chunk(typ, mask, sizes)]], dict_encoded=True)
+        special.append((fs, dict(encoding="RLE_DICTIONARY", dict_offset="absent")))
+        fs = FileSpec(codec, [Col("a", typ, nullable)], [[rc.make_chunk(typ, mask, sizes)]], dict_encoded=True)
+        special.append((fs, dict(page_encodings=["PLAIN", "RLE_DICTIONARY", "PLAIN"])))
+        fs = FileSpec(codec, [Col("a", typ, nullable)], [[rc.make_chunk(typ, mask, sizes)]], dict_encoded=True)
+        special.append((fs, dict(page_encodings=["RLE_DICTIONARY", "PLAIN"])))
+    return special
+
+
+def empty_rowgroup_file(rng):
+    """a row group without rows between two others and at the end"""
+    fe = FileSpec(0, [Col("a", "i32", False), Col("b", "i32", True)],
+                  [[rc.make_chunk("i32", [False] * 3, [3]), rc.make_chunk("i32", [False, True, False], [1, 2])], [[], []],
+                   [rc.make_chunk("i32", [False] * 2, [2], base=3), rc.make_chunk("i32", [True, False], [2], base=3)], [[], []]])
+    return fe.use_bytes(rc.pq_bytes(fe, encoding="PLAIN", crc=True, rng=rng))
+
+
 def gen_pq_cases(tier, rng):
     """files from the independent writer tools/pq.py: dictionary-encoded chunks (the carquet writer only emits PLAIN),
     page CRCs, and chunks with a data page of zero values at the start, in the middle, at the end"""
@@ -336,6 +423,34 @@ def gen_pq_cases(tier, rng):
             for h in rng.sample(hs, min(len(hs), 150 if thorough else 60)):
                 cases.append(col_case(fs, 0, 0, modes[mi % 3], rc.ops_text(h), "dict", verify=mi % 2))
                 mi += 1
+    # coverage audit: INT96 (not writable by carquet), chunks whose dictionary page is not announced in the metadata,
+    # chunks mixing PLAIN and dictionary pages (view <-> owned buffer transitions under mmap), a row group without rows
+    special = special_pq_specs(rng)
+    for fs, kw in special:
+        try:
+            fs.use_bytes(rc.pq_bytes(fs, crc=True, rng=rng, **kw))
+        except Exception as e:
+            log(f"C02: pq.py cannot write {kw}: {e}")
+            continue
+        n = len(fs.rows(0, 0))
+        cases.append(col_case(fs, 0, 0, "f", f"r{n + 1}", "ref"))
+        hs = rc.histories(n, n + 1)
+        for h in rng.sample(hs, min(len(hs), 90 if thorough else 30)):
+            cases.append(col_case(fs, 0, 0, modes[mi % 3], rc.ops_text(h), "special", verify=mi % 2))
+            mi += 1
+        for bs in (1, 2, 4, 7):
+            for mode in "fmb":
+                cases.append(bat_case(fs, mode, bs, "all", [0], "special"))
+    # a row group without rows between two others (src/reader/batch_reader.c "Handle empty row group")
+    fe = empty_rowgroup_file(rng)
+    for g in range(4):
+        for c in range(2):
+            cases.append(col_case(fe, g, c, "f", "r9", "ref"))
+            cases.append(col_case(fe, g, c, "m", "m,h,r2,m,h,s1,r1,m,h", "special"))
+    for bs in (1, 2, 3, 9):
+        for proj, pc in (("all", [0, 1]), ("i:1", [1]), ("n:b,a", [1, 0])):
+            for mode in "fmb":
+                cases.append(bat_case(fe, mode, bs, proj, pc, "special"))
     # requests of 2^31 values and more (the repaired code compares in 64 bits; the pinned code cast to int32 first).
     # REQUIRED BOOLEAN: one byte per slot, the driver hands over untouched zero pages.  The model's caller buffer is an
     # explicit list, so these cases are judged by the property's oracle only (no model line).
@@ -391,6 +506,13 @@ def collect_refs(cases, impl):
         if c.kind == "col" and c.tag == "ref":
             t = out.split()
             key = (c.fs.text(), c.rg, c.col)
+            if isinstance(c.fs, rc.RawFile):
+                if len(t) >= 2 and t[0] == "OK" and t[1][0] == "r":
+                    refs[key + ("raw",)] = t[1]
+                    f = c.fs
+                    want = "OK " + rc.expected_oneshot(*f.truth[c.rg][c.col], *f.levels[c.col])
+                    refs[key] = out if out == want else None
+                continue
             if len(t) >= 2 and t[0] == "OK" and t[1][0] == "r":
                 refs[key] = rc.parse_read_token(t[1])[1]
             elif key not in refs:
@@ -414,11 +536,19 @@ class Tally:
 def check_col(c, out, refs, tally):
     key = (c.fs.text(), c.rg, c.col)
     ref = refs.get(key)
-    written = [rc.tok(r) for r in c.fs.rows(c.rg, c.col)]
     if out.startswith("FAULT skipped"):
         return
     if out.startswith("FAULT"):
         tally.violation("the reader died on this history (sanitizer report or signal)", {"case": c.line}, key=c.fs.known)
+        return
+    if c.rg >= len(getattr(c.fs, "rgs", [0] * 99)) or (hasattr(c.fs, "cols") and c.col >= len(c.fs.cols)):
+        want = "ERR get_column 62" if c.rg >= len(c.fs.rgs) else "ERR get_column 61"
+        if out.strip() != want:
+            tally.violation(f"carquet_reader_get_column outside the file: got {out[:100]}, expected {want} "
+                            "(ROW_GROUP_NOT_FOUND / COLUMN_NOT_FOUND)", {"case": c.line})
+        return
+    if isinstance(c.fs, rc.RawFile):
+        check_nested_col(c, out, refs, tally)
         return
     if ref is None:
         if c.tag == "ref":
@@ -438,11 +568,40 @@ def check_col(c, out, refs, tally):
             {"case": c.line, "got": t[1:], "want": want, "chunk_content_by_one_shot_read": ref}, key=c.fs.known)
 
 
+def check_nested_col(c, out, refs, tally):
+    f = c.fs
+    md, mr = f.levels[c.col]
+    t = out.split()
+    if not t or t[0] != "OK":
+        tally.violation(f"history on a nested column refused: {out[:200]}", {"case": c.line})
+        return
+    ref_tok = refs.get((f.text(), c.rg, c.col, "raw"))
+    if ref_tok is None:
+        return
+    ops = rc.parse_ops(c.ops)
+    if md > 1 or mr > 0:
+        defs, reps, vals = rc.parse_nested_token(ref_tok)
+        want = rc.reference_cursor_nested(defs, reps, vals, md, ops)
+    else:
+        want = rc.reference_cursor(rc.parse_read_token(ref_tok)[1], md > 0, ops)
+    if t[1:] != want:
+        i = next((j for j, (a, b) in enumerate(zip(t[1:], want)) if a != b), min(len(want), len(t) - 1))
+        tally.violation(f"nested column: history delivers something else than the one-shot read of the same chunk at step {i}: "
+                        f"got {t[1 + i] if 1 + i < len(t) else None}, cursor arithmetic over the one-shot entries gives "
+                        f"{want[i] if i < len(want) else None}", {"case": c.line, "got": t[1:], "want": want})
+
+
 def check_bat(c, out, refs, tally):
     if out.startswith("FAULT skipped"):
         return
     if out.startswith("FAULT"):
         tally.violation("the batch reader died on this configuration (sanitizer report or signal)", {"case": c.line})
+        return
+    if c.pcols is not None and any(p >= len(c.fs.cols) for p in c.pcols):
+        # projection by an index the file does not have: created, then the first next fails
+        if out.strip() != "OK E61 L1":
+            tally.violation(f"projection {c.proj} names a column the file does not have: expected no batch and COLUMN_NOT_FOUND "
+                            f"from the first next, got {out[:200]}", {"case": c.line, "got": out})
         return
     if c.pcols is None:
         # a projection naming a column that does not exist (a prefix / extension / case variant of existing names)
@@ -555,7 +714,11 @@ def evaluate(rep, tally, cases, impl, deaths):
             continue
         if c.kind == "col":
             check_col(c, out, refs, tally)
-            if c.tag == "ref":
+            if c.tag == "ref" and isinstance(c.fs, rc.RawFile):
+                if refs.get((c.fs.text(), c.rg, c.col)) is None and out.startswith("OK"):
+                    rep.tie_broken("one-shot read of a nested column differs from the ground truth of tools/pq.py (page "
+                                   "decoding, outside C02): " + out[:200], c.line)
+            elif c.tag == "ref":
                 written = [rc.tok(r) for r in c.fs.rows(c.rg, c.col)]
                 if refs.get((c.fs.text(), c.rg, c.col)) not in (None, written):
                     # every history of this chunk is still compared with the one-shot read; this line only says
